@@ -2160,7 +2160,9 @@ def fixup_asymmetric_weights(op: Operation, arch, nng) -> Operation:
             op.attrs.setdefault(
                 "original_weights_zero_point", zero_point.copy() if isinstance(zero_point, np.ndarray) else zero_point
             )
-            op.weights.quantization.zero_point *= 0
+            # Not in place: a constant weight tensor is a clone that shares its zero point array with the tensor that was
+            # read from the file (QuantizationParameters.clone), which is the one written back for a CPU operator.
+            op.weights.quantization.zero_point = zero_point * 0
     return op
 
 
